@@ -120,6 +120,12 @@ class C03(RegConcCheck):
                 pid = "C03"
                 profile = "handler"
             return It().replay(payload)
+        if payload.get("queue"):
+            from . import itq
+            sc = [l for l in payload["scenario"] if not l.startswith("seed")] + ["schedule " + " ".join(payload["schedule"])]
+            r = itq.run_one(sc)
+            probs = itq.monitors(r).get("C03", [])
+            return bool(probs), "\n".join(r["impl"] + [r["status"]] + probs)
         if payload.get("channel"):
             from . import c06
             class Ch(c06.ChannelCheck):
@@ -141,6 +147,22 @@ class C03(RegConcCheck):
         res["distribution"]["iterator_scenarios"] = ires["evaluations"]
         res["distribution"]["iterator_wakes_on_full_pipe"] = ires["distribution"].get("= -1", 0)
         res["rule"] += "; plus iterator scenarios (the instance's real action: slot store + self-pipe wake, half of them with the pipe filled to capacity) with the same per-step monitor and a would-block detector on every write/send"
+        # the info-carrying exfiltrators (one channel per signal, built lazily by `add_signal`): deliveries racing an
+        # `add_signal` of their own signal, and the ordinary queueing scenarios, with the heap monitor
+        from . import itq
+        qs = [itq.gen_add_race(rng) for _ in range(60 if tier == "quick" else 3000)] + [itq.gen_scenario(rng) for _ in range(60 if tier == "quick" else 2000)]
+        nheap = 0
+        for r in itq.run_many(qs):
+            qp = itq.monitors(r).get("C03", [])
+            nheap += sum(1 for l in r["impl"] if " ret add " in l)
+            if qp:
+                res["failures"].append({"kind": "violation", "key": "C03:itq:" + core.digest(qp[0].split(":")[-1][:40]),
+                                        "what": "iterator (queueing exfiltrator) schedule (%d steps): %s" % (len(r["schedule"]), qp[0]),
+                                        "payload": {"scenario": r["scenario"], "schedule": r["schedule"], "impl": r["impl"][-80:], "queue": True}})
+        res["evaluations"] += len(qs)
+        res["distribution"]["queueing_scenarios"] = len(qs)
+        res["distribution"]["queueing_add_signal_calls"] = nheap
+        res["rule"] += "; plus scheduled scenarios on the info-carrying exfiltrator (WithRawSiginfo), a third of them with deliveries racing an add_signal of their own signal, with the heap monitor on every delivery"
         # the channel `send` that the origin-carrying exfiltrator runs inside the delivery: scheduled scenarios
         # (sends nested on threads that are mid-send/mid-recv, spurious failures) against the model, with the
         # no-panic / step-bound monitors restricted to `send`
